@@ -576,6 +576,7 @@ var fixedCases = []e2eCase{
 	{Kind: "build", Src: "DEFS_PKG = \"defs\"\nsubinclude(\"//defs:d1\")\nsubinclude(f\"//{DEFS_PKG}:d2\")\nfilegroup(name = \"t\", labels = [D1, D2, SHARED])\n"},
 	{Kind: "build", Src: "subinclude(\"//defs:d2\")\nsubinclude(\"//defs:d1\")\n# attached\nsubinclude(\"//defs:d3\", \"//defs:d1\")\n\n# block\n\nsubinclude(\"//defs:d4\")\nfilegroup(name = \"t\", labels = [D1, D2, D3, D4, SHARED])\n"},
 	{Kind: "build", Src: "L = \"//defs:d2\"\nsubinclude(\"//defs:d1\")\nsubinclude(L)\nsubinclude([\"//defs:d3\"])\nsubinclude(\"//defs:d1\")\nfilegroup(name = \"t\", labels = [SHARED])\n"},
+	{Kind: "build", Src: "subinclude(\"//defs:d1\")\nsubinclude(\"//\" + DEFS_PKG + \":d2\")\nsubinclude(\"//defs:d3\")\nsubinclude(\"//defs:d1\", \"//defs:d4\")\nsubinclude(\"//defs:d2\")\nfilegroup(name = \"t\", labels = [D1, D2, D3, D4, SHARED])\n"},
 	{Kind: "build", Src: "filegroup(name = \"t\", srcs = [\"b.txt\", \"a.txt\"])\n"},
 	{Kind: "build", Src: "filegroup(name = \"t\", srcs = [\"b.txt\", \"a.txt\", \"b.txt\"])\n"},
 	{Kind: "build", Src: "genrule(name = \"t\", srcs = [\"b.txt\", \"a.txt\"], outs = [\"o2\", \"o1\"], cmd = \"true\")\n"},
@@ -664,7 +665,7 @@ func e2e(c *lib.Ctx) {
 			fc.Fixed = true
 			cases = append(cases, fc)
 		}
-		n := c.Scale(120, 3000)
+		n := c.Scale(100, 3000)
 		for i := 0; i < n; i++ {
 			r := c.Rng.Fork()
 			defs := r.Chance(1, 5)
@@ -788,6 +789,7 @@ func e2e(c *lib.Ctx) {
 		case !accepted:
 			c.Hist("e2e", "rejected-before-formatting")
 			c.Hist("rejected_reason", reason(before[i].Err))
+			js["error_before"] = before[i].Err
 			if d := os.Getenv("VERIF_C38_DUMP"); d != "" {
 				data, _ := json.MarshalIndent(js, "", " ")
 				os.WriteFile(filepath.Join(d, "rejected-"+cs.Name+".json"), data, 0o644)
@@ -910,7 +912,7 @@ func e2e(c *lib.Ctx) {
 	nfmt := 0
 	root := filepath.Join(work, "fmtrepo")
 	for i, cs := range cases {
-		if nfmt >= c.Scale(6, 40) {
+		if nfmt >= c.Scale(3, 40) {
 			break
 		}
 		if outs[i].FormatErr != "" || outs[i].Formatted == cs.Src {
